@@ -20,6 +20,7 @@ namespace {
 struct Case {
     std::vector<uint8_t> bytes;
     int                  width{1};
+    int                  gen2{0}; // 1: the first template may be a nest of 9-13 loops over a two-element array (absent in older files: 0)
 };
 
 struct Flags {
@@ -36,6 +37,11 @@ void run_width(const Case &c, pbt::Ctx &ctx, Flags &fl, std::string &trace) {
     const int value_id = int(e.below(tv::kPalette));
     V         value;
     tv::build<Char_T>(value_id, value);
+    const bool deep_nest = (c.gen2 != 0 && value.IsObject() && !c.bytes.empty() && (c.bytes.back() % 3) == 0);
+    if (deep_nest) {
+        value[tv::Key<Char_T>("pp").v()] += 1;
+        value[tv::Key<Char_T>("pp").v()] += 2;
+    }
 
     // templates (exact-size buffers that outlive every cache parsed from them)
     std::vector<std::unique_ptr<jm::Buf<Char_T>>> texts;
@@ -65,6 +71,23 @@ void run_width(const Case &c, pbt::Ctx &ctx, Flags &fl, std::string &trace) {
         }
         if (loops > 4) {
             u.resize(40);
+        }
+        if (deep_nest && i == 0) {
+            // 9-13 loops inside each other, every one over two items (the per-render slot array grows while outer loops are
+            // in the middle of their iteration), printing the outermost and the innermost item
+            const unsigned levels = 9 + unsigned(c.bytes.back() / 3) % 5;
+            std::string    t;
+            for (unsigned k = 0; k < levels; ++k) {
+                t += "<loop set=\"pp\" value=\"w" + std::to_string(k) + "\">";
+            }
+            t += "{var:w0}{var:w" + std::to_string(levels - 1) + "}";
+            for (unsigned k = 0; k < levels; ++k) {
+                t += "</loop>";
+            }
+            u.assign(t.begin(), t.end());
+            for (auto &x : u) {
+                x &= 0xFF;
+            }
         }
         texts.emplace_back(new jm::Buf<Char_T>(u));
     }
@@ -179,11 +202,12 @@ struct H {
     static const char *name() { return "C16 allocation lifetimes"; }
     static rc::Gen<Case> gen() {
         using namespace rc;
-        return gen::map(gen::tuple(gen::resize(300, gen::container<std::vector<uint8_t>>(gen::arbitrary<uint8_t>())), pbt::pick<int>({1, 1, 2, 4})),
-                        [](std::tuple<std::vector<uint8_t>, int> t) {
+        return gen::map(gen::tuple(gen::resize(300, gen::container<std::vector<uint8_t>>(gen::arbitrary<uint8_t>())), pbt::pick<int>({1, 1, 2, 4}), pbt::pick<int>({0, 1, 1})),
+                        [](std::tuple<std::vector<uint8_t>, int, int> t) {
                             Case c;
                             c.bytes = std::get<0>(t);
                             c.width = std::get<1>(t);
+                            c.gen2  = std::get<2>(t);
                             return c;
                         });
     }
@@ -191,7 +215,9 @@ struct H {
     static bool from_fuzz(const uint8_t *d, size_t n, Case &c) {
         pbt::FuzzBytes f(d, n);
         static const int w[] = {1, 2, 4, 1};
-        c.width = w[f.sel() & 3];
+        const uint8_t sel = f.sel();
+        c.width = w[sel & 3];
+        c.gen2  = (sel >> 2) & 1;
         c.bytes = f.rest();
         return true;
     }
@@ -204,6 +230,7 @@ struct H {
             hex += b;
         }
         kv.put("width", c.width);
+        kv.put("gen2", c.gen2);
         kv.put("bytes", hex);
         return kv.text();
     }
@@ -215,6 +242,7 @@ struct H {
             c.bytes.push_back(uint8_t(strtoul(hex.substr(i, 2).c_str(), nullptr, 16)));
         }
         c.width = int(kv.geti("width", 1));
+        c.gen2  = int(kv.geti("gen2", 0));
         return c;
     }
     static void run(const Case &c, pbt::Ctx &ctx) {
